@@ -224,3 +224,47 @@ func VerifC04MultiDoc() {
 	caps, _ := c04Strs(s["cap_add"])
 	vrtAssert("later-documents-append-caps", len(caps) >= 2 && caps[0] == "X" && caps[1] == "Y")
 }
+
+// VerifC04ResetAlias: a tagged attribute inside an anchored mapping acts wherever the mapping is used - at the
+// service that defines the anchor and at every service that refers to it, whichever comes first.
+func VerifC04ResetAlias() {
+	w := vrtRoot() + "/w"
+	v := "x" + vrtString("v", vrtParam("VL", 1), "ab")
+	tag := []string{"!reset", "!override"}[vrtChoice("tag", 2)]
+	svc := func(name string) map[string]any {
+		return map[string]any{"image": "i", "ports": []any{"8080:80"}, "command": []any{name, v}, "user": "keep"}
+	}
+	vrtYamlFile(w+"/compose.yaml", map[string]any{"services": map[string]any{"a": svc("a"), "b": svc("b"), "c": svc("c")}})
+	val := nSeq(nStr("9090:90"))
+	val.Tag = tag
+	anchored := nMap(nStr("ports"), val, nStr("working_dir"), nStr("/w"+v))
+	anchored.Anchor = "s"
+	alias := func() *yaml.Node { return &yaml.Node{Kind: yaml.AliasNode, Value: "s", Alias: anchored} }
+	// which service defines the anchor: the first or the last of those that use it
+	var services *yaml.Node
+	if vrtChoice("anchorOnFirst", 2) == 1 {
+		services = nMap(nStr("a"), anchored, nStr("b"), alias(), nStr("c"), alias())
+	} else {
+		services = nMap(nStr("b"), anchored, nStr("a"), alias())
+	}
+	vrtYamlNodeFile(w+"/override.yaml", nMap(nStr("services"), services))
+	m, err := tcLoadFiles(nil, w+"/compose.yaml", w+"/override.yaml")
+	vrtObserve("err", err != nil)
+	vrtAssert("loads", err == nil)
+	if err != nil {
+		vrtObserve("msg", err.Error())
+		return
+	}
+	for _, name := range []string{"a", "b"} {
+		s := tcSvc(m, name)
+		vrtObserve("ports-"+name, s["ports"])
+		vrtAssert("untagged-part-of-the-anchored-mapping-applied", s["working_dir"] == any("/w"+v) && s["user"] == any("keep"))
+		l, _ := s["ports"].([]any)
+		if tag == "!reset" {
+			_, has := s["ports"]
+			vrtAssert("reset-acts-at-every-use-of-the-anchor#"+name, !has)
+		} else {
+			vrtAssert("override-acts-at-every-use-of-the-anchor#"+name, len(l) == 1 && c04Int(l[0].(map[string]any)["target"]) == 90)
+		}
+	}
+}
